@@ -127,3 +127,28 @@ package template
 //@   serves C01 C08
 //@   ensures found: isspecial(c.element.name) && exists(p, 0, len(s), endtagat(s, p, c.element.name)) ==> r.state == stateText && r.delim == delimNone && len(r.element.name) == 0 && len(r.attr.name) == 0 && isnil(r.err) && len(r.linkRel) == 0 && len(r.scriptType) == 0 && 0 <= n && n < len(s) && endtagat(s, n, c.element.name) && forall(p, 0, n, !endtagat(s, p, c.element.name))
 //@   ensures none: !(isspecial(c.element.name) && exists(p, 0, len(s), endtagat(s, p, c.element.name))) ==> same(r, c) && n == len(s)
+
+//@ func tText(c context, s []byte) (r context, n int)
+//@   serves C01 C08
+//@   ensures range: 0 <= n && n <= len(s)
+//@   ensures none: forall(p, 0, len(s), !tagstart(s, p)) ==> same(r, c) && n == len(s)
+//@   ensures first: exists(p, 0, len(s), tagstart(s, p)) ==> exists(p, 0, len(s), tagstart(s, p) && forall(q, 0, p, !tagstart(s, q)) && ite(commentat(s, p), r.state == stateHTMLCmt && n == p + 4 && len(r.element.name) == 0, r.state == stateTag && ite(s[p+1] == 47, n == tagend(s, p + 2) && len(r.element.name) == 0, n == tagend(s, p + 1) && seqeq(r.element.name, lower(sub(s, p + 1, n))))))
+//@   ensures fresh: exists(p, 0, len(s), tagstart(s, p)) ==> r.delim == delimNone && len(r.attr.name) == 0 && len(r.attr.value) == 0 && isnil(r.err) && len(r.linkRel) == 0 && len(r.scriptType) == 0 && len(r.element.names) == 0
+//@   loop 1
+//@     invariant 0 <= k && k <= len(s)
+//@     invariant forall(p, 0, k, !tagstart(s, p))
+//@     decreases len(s) - k
+
+//@ func sanitizationContextForAttrVal(element, attr, linkRel string) (sc sanitizationContext, err error)
+//@   serves C04 C02
+//@   option uses C04.data_attribute_names
+//@   ensures allowed: isnil(err) ==> policyattr(element, attr, fields(linkRel)) != 0
+//@   ensures atleast: isnil(err) ==> trustge(classof(sc), policyattr(element, attr, fields(linkRel)))
+//@   loop 1
+//@     invariant forall(k, 0, rangeidx, !pol_linkrel(at(relVals, k)))
+
+//@ func sanitizationContextForElementContent(element string) (sc sanitizationContext, err error)
+//@   serves C04 C02
+//@   ensures allowed: isnil(err) ==> policycontent(element) != 0
+//@   ensures atleast: isnil(err) ==> trustge(classof(sc), policycontent(element))
+//@   ensures listed: policycontent(element) != 0 ==> isnil(err)
